@@ -133,12 +133,12 @@ func VerifH_C08_smoke() {
 // ---- shared ghost helpers --------------------------------------------------------------------------------------
 
 type verifWorld struct {
-	fsm     *vr.FSModel
-	bm      *vb.Model
-	backend *verifBackend
-	sn      *snapshotter
-	parent  map[string]string // snapshot name/key -> parent name ("" for none), as requested by the harness
-	nextKey int
+	fsm      *vr.FSModel
+	bm       *vb.Model
+	backend  *verifBackend
+	sn       *snapshotter
+	parent   map[string]string // snapshot name/key -> parent name ("" for none), as requested by the harness
+	nextKey  int
 	inflight []string // names the operation in flight may legitimately consume (commit renames, remove deletes)
 }
 
@@ -321,6 +321,11 @@ func (w *verifWorld) step(ctx context.Context) {
 		}
 		_, _, existedBefore := w.idOf(target)
 		ms, err := w.sn.Prepare(ctx, key, parent, opts...)
+		if _, _, ok := w.idOf(key); ok {
+			// whatever the outcome, a snapshot left under this key has the requested parent (a remote Prepare whose
+			// target already existed leaves the key behind as an active snapshot)
+			w.parent[key] = parent
+		}
 		if target != "" && errdefs.IsAlreadyExists(err) {
 			id, info, ok := w.idOf(target)
 			vr.Assert(ok && info.Kind == snapshots.KindCommitted, "already-exists-means-target-is-committed")
@@ -425,7 +430,7 @@ func VerifH_C08_history() {
 	steps := 3
 	verifFaults = 1
 	if vr.Tier() > 0 {
-		steps, verifFaults = 4, 2
+		steps, verifFaults = 4, 1
 	}
 	ctx := context.Background()
 	var opts []Opt
